@@ -399,6 +399,36 @@ impl<F: Float + SampleUniform + std::fmt::Debug, D: Hash + Copy, H: Hasher + Def
 
 //===================================================================================================
 
+// verification hooks: compiled only with `--cfg probminhash_verif`
+#[cfg(probminhash_verif)]
+impl<F: Float + SampleUniform + std::fmt::Debug, D: Hash + Copy, H: Hasher + Default>
+    OptDensMinHash<F, D, H>
+{
+    /// (hsketch, values, init, nb_empty) whatever the densification state
+    pub fn verif_state(&self) -> (Vec<F>, Vec<u64>, Vec<bool>, i64) {
+        (
+            self.hsketch.clone(),
+            self.values.clone(),
+            self.init.clone(),
+            self.nb_empty,
+        )
+    }
+}
+#[cfg(probminhash_verif)]
+impl<F: Float + SampleUniform + std::fmt::Debug, D: Hash + Copy, H: Hasher + Default>
+    RevOptDensMinHash<F, D, H>
+{
+    /// (hsketch, values, init, nb_empty) whatever the densification state
+    pub fn verif_state(&self) -> (Vec<F>, Vec<u64>, Vec<bool>, i64) {
+        (
+            self.hsketch.clone(),
+            self.values.clone(),
+            self.init.clone(),
+            self.nb_empty,
+        )
+    }
+}
+
 #[cfg(test)]
 mod tests {
 
